@@ -76,6 +76,12 @@ def check(pid, tier='quick', seed=0):
     t0 = time.time()
     cfg = importlib.import_module(f'vt.props.{pid}')
     known = load_known()
+    # model conformance (DESIGN 3.2): the assumed library contracts are compared with the real library on seeded inputs
+    from . import conformance
+    ok_conf, why_conf = conformance.run(seed)
+    if not ok_conf:
+        print(f'CHECKER-BROKEN property={pid} library model conformance failed: {why_conf}')
+        return 3
     lines = []
     # ---- deductive part
     verdicts = list(cfg.deductive(tier))
